@@ -21,7 +21,7 @@ import (
 func TestMain(m *testing.M) { hx.Main(m) }
 
 type spec struct {
-	Kind  string `json:"kind"` // fanout | pipeline | reusebuf | outcome | rawfan | peerloss | ownbody | resize | stallloss | reqretain | newmsg
+	Kind  string `json:"kind"` // fanout | pipeline | reusebuf | outcome | rawfan | peerloss | ownbody | resize | stallloss | relay | reqretain | newmsg
 	Pat   string `json:"pat,omitempty"`
 	Tran  string `json:"tran,omitempty"`
 	N     int    `json:"n,omitempty"`
@@ -76,6 +76,24 @@ func TestC17(t *testing.T) {
 				cases = append(cases, mon.CaseSpec{Name: "stallloss/" + p.snd + "/" + tr, Spec: spec{Kind: "stallloss", Pat: p.snd, Tran: tr, Yield: rnd.Intn(2) == 0}})
 			}
 		}
+		for _, p := range []string{"xstar", "star"} {
+			// the hub's application writes into what it received while the relayed copies wait behind slow peers
+			for v := 0; v < r.Pick(1, 2); v++ {
+				cases = append(cases, mon.CaseSpec{Name: "relay/" + p + "/vt", Spec: spec{Kind: "relay", Pat: p, Tran: "vt", N: r.Pick(3, 4) + rnd.Intn(r.Pick(3, 8)), Yield: rnd.Intn(2) == 0}})
+			}
+			cases = append(cases, mon.CaseSpec{Name: "relay/" + p + "/inproc", Spec: spec{Kind: "relay", Pat: p, Tran: "inproc", N: r.Pick(2, 3) + rnd.Intn(r.Pick(2, 5)), Yield: rnd.Intn(2) == 0}})
+			// (stream transports need volume to back up: one random one for every other hub, thorough two for every hub)
+			var streams []string
+			if r.Thorough() {
+				i := rnd.Intn(len(trans) - 1)
+				streams = []string{trans[1+i], trans[1+(i+1+rnd.Intn(len(trans)-2))%(len(trans)-1)]}
+			} else if rnd.Intn(2) == 0 {
+				streams = []string{trans[1+rnd.Intn(len(trans)-1)]}
+			}
+			for _, tr := range streams {
+				cases = append(cases, mon.CaseSpec{Name: "relay/" + p + "/" + tr, Spec: spec{Kind: "relay", Pat: p, Tran: tr, N: 2 + rnd.Intn(2), Yield: rnd.Intn(2) == 0}})
+			}
+		}
 		cases = append(cases, mon.CaseSpec{Name: "reqretain", Spec: spec{Kind: "reqretain", N: 3 + rnd.Intn(3)}})
 		cases = append(cases, mon.CaseSpec{Name: "newmsg", Spec: spec{Kind: "newmsg"}})
 	}
@@ -105,6 +123,8 @@ func TestC17(t *testing.T) {
 			runResize(c, sp)
 		case "stallloss":
 			runStallLoss(c, sp)
+		case "relay":
+			runRelay(c, sp)
 		case "reqretain":
 			runReqRetain(c, sp)
 		case "newmsg":
